@@ -853,6 +853,36 @@ def m_default_cycle(d, rng):
     return d
 
 
+def m_oneof_cycle(d, rng):
+    """a OneOf input object without a finite value (valid by the 'nullable, no default' OneOf rule)"""
+    r = rng.random()
+    if r < 0.4:
+        d["types"]["OcA"] = {"kind": "input", "oneOf": True, "fields": {"a": ival(N("OcA"))}}
+    elif r < 0.7:
+        d["types"]["OcA"] = {"kind": "input", "oneOf": True, "fields": {"b": ival(N("OcB"))}}
+        d["types"]["OcB"] = {"kind": "input", "oneOf": False, "fields": {"a": ival(NN(N("OcA"))), "x": ival(N("Int"))}}
+    else:
+        d["types"]["OcA"] = {"kind": "input", "oneOf": True, "fields": {"a": ival(N("OcA")), "b": ival(N("OcB"))}}
+        d["types"]["OcB"] = {"kind": "input", "oneOf": True, "fields": {"a": ival(N("OcA"))}}
+    return d
+
+
+def m_oneof_recursive_ok(d, rng):
+    """control: recursive OneOf objects that do have finite values"""
+    d["types"]["OkOne"] = {"kind": "input", "oneOf": True, "fields": {"self": ival(N("OkOne")), "l": ival(L(NN(N("OkOne")))), "i": ival(N("Int"))}}
+    return d
+
+
+def chain_sdl(n, mode):
+    """a valid schema whose input objects form a reference chain of length n"""
+    parts = ["type Query { f(a: A0): Int }"]
+    for i in range(n):
+        link = f"f: A{i + 1}!" if mode == "nonnull" else f"f: A{i + 1} = {{}}"
+        parts.append(f"input A{i} {{ {link} }}")
+    parts.append(f"input A{n} {{ x: Int }}")
+    return "\n".join(parts) + "\n"
+
+
 def m_directive_on_nothing_ok(d, rng):
     """control: stays valid"""
     d["types"]["OkA"] = {"kind": "input", "oneOf": False, "fields": {"a": ival(N("OkA"), rng.choice(["null", "{a: null}", "{a: {a: null}}"])), "l": ival(NN(L(NN(N("OkA")))), "[]")}}
@@ -891,6 +921,8 @@ MUTATIONS = [
     ("nonnull_cycle", m_nonnull_cycle),
     ("default_cycle", m_default_cycle),
     ("control_valid_recursion", m_directive_on_nothing_ok),
+    ("oneof_cycle", m_oneof_cycle),
+    ("control_oneof_recursive", m_oneof_recursive_ok),
 ]
 
 
